@@ -328,6 +328,16 @@ def one_run(job):
     opt = copy.deepcopy(job["option"])
     out = {"iso3": job["iso3"], "option": job["option"]}
     try:
+        # the run's per-head / per-animal yields as the country table ROW and the scenario OPTION give them
+        # (read here from the csv and the option dict, not from anything MeatAndDairy or the option layer stored)
+        trow = table()[table()["iso3"] == job["iso3"]].iloc[0]
+
+        def row_or_option(key):
+            return float(job["option"][key]) if key in job["option"] else float(trow[key])
+        row = {"kg_chicken": row_or_option("kg_meat_per_chicken"), "kg_pig": row_or_option("kg_meat_per_pig"),
+               "milk_yield": row_or_option("milk_yield_kg_per_milk_bearing_animal_per_year"),
+               "kg_large": (float(job["option"]["kg_meat_per_large_animal"])
+                            if "kg_meat_per_large_animal" in job["option"] else None)}
         r, country_data = country_data_of(job["iso3"], opt)
         for pj in job.get("prelude", []):
             # earlier runs executed in THIS process, uncaptured: anything they leave behind (module-level state)
@@ -346,6 +356,7 @@ def one_run(job):
             except BaseException as e:  # a run that dies half way still offered something to the rounds it reached
                 out["run_err"] = classify(e) + ": " + str(e)[:200]
             out["capture"] = cap.result()
+            out["capture"]["row"] = row
         out["audit"] = c05_audit.audit_capture(out["capture"], complete="run_err" not in out)
     except BaseException as e:
         out["err"] = classify(e) + ": " + str(e)[:300] + " | " + traceback.format_exc()[-600:]
